@@ -15,6 +15,35 @@ impl TypeScript {
         ensures r is Ok ==> final(w)@ == old(w)@ + comments_text(indent as int, comments@), final(self).cfg() == old(self).cfg(),
     { unimplemented!() }
 }
+// ---------- T7 stubs for the enum types the lifted payload block names (only these fields / this accessor are used)
+pub struct RustEnumShared { pub generic_types: Vec<String> }
+pub struct RustEnum { pub s: RustEnumShared }
+impl RustEnum {
+    #[verifier::external_body]
+    pub fn shared(&self) -> (r: &RustEnumShared) ensures *r == self.s { unimplemented!() }
+}
+pub struct RustEnumVariantShared { pub id: Id }
+impl BTreeMap<String, BTreeSet<String>> {
+    /// the type texts recorded for the ReviverFunc / ReplacerFunc footer
+    pub uninterp spec fn keys(&self) -> Set<Seq<char>>;
+    /// std: BTreeMap::is_empty - no key recorded
+    #[verifier::external_body]
+    pub fn is_empty(&self) -> (r: bool) ensures r == (self.keys() =~= Set::<Seq<char>>::empty()) { unimplemented!() }
+}
+/// the custom translation snippets of one recorded type (struct CustomJsonTranslationContent: two texts)
+pub struct CustomJsonTranslationContent { reviver: String, replacer: String }
+/// outlined (T3): `self.types_for_custom_json_translation.iter().filter_map(|(ts_type, ..)| self.custom_translations(ts_type)).collect()`
+#[verifier::external_body]
+fn collect_translations(this: &TypeScript) -> (r: Vec<CustomJsonTranslationContent>) { unimplemented!() }
+/// outlined (T3): `content.iter().map(|c| &c.reviver).join("\n    ")` / the same for `replacer` (itertools join): some text
+#[verifier::external_body]
+fn join_revivers(v: &Vec<CustomJsonTranslationContent>) -> (r: String) { unimplemented!() }
+#[verifier::external_body]
+fn join_replacers(v: &Vec<CustomJsonTranslationContent>) -> (r: String) { unimplemented!() }
+/// trigger plumbing for "the output is earlier text + a + declaration + b"
+pub open spec fn wit2(a: Seq<char>, b: Seq<char>) -> bool { true }
+/// the declaration every use of the helper refers to
+pub open spec fn reviver_decl() -> Seq<char> { "export const ReviverFunc"@ }
 /// outlined (T3): reviver bookkeeping `if self.custom_translations(&ts_ty).is_some() { ..entry(..)..insert(..) }` - touches only that map
 #[verifier::external_body]
 fn note_field_translation(seen: &mut BTreeMap<String, BTreeSet<String>>, ts_ty: &String, key: &String) { unimplemented!() }
@@ -56,26 +85,116 @@ FIELD = [
         ''', where='before'),
 ]
 
+ENDFILE = [
+    rep(A.text('&mut dyn Write'), '&mut WriteSink', tag='T7'),
+    ins(A.ret(), '(r: ', where='before'), ins(A.ret(), ')', where='after'),
+    ins(A.sig(), '''
+        ensures /*C12: whenever a type text has been recorded for the reviver / replacer helpers, the footer that declares them is written*/
+            (r is Ok && !(old(self).types_for_custom_json_translation.keys() =~= Set::<Seq<char>>::empty())) ==> exists|a: Seq<char>, b: Seq<char>| #[trigger] wit2(a, b)
+                && final(w)@ == old(w)@ + a + reviver_decl() + b,
+''', cid='end_file.contract'),
+    ins(A.body_start(), '''
+        let ghost w0 = w@;'''),
+    rep(A.span('self .types_for_custom_json_translation .iter() .filter_map(', '.collect::<Vec<CustomJsonTranslationContent>>()'), 'collect_translations(self)', tag='T3',
+        note='which snippets are collected is not part of the clause'),
+    rep(A.span('custom_translation_content .iter() .map(|custom_json_translation| &custom_json_translation.reviver)', '.join("\\n    ")'), 'join_revivers(&custom_translation_content)', tag='T3'),
+    rep(A.span('custom_translation_content .iter() .map(|custom_json_translation| &custom_json_translation.replacer)', '.join("\\n    ")'), 'join_replacers(&custom_translation_content)', tag='T3'),
+    ins(A.text('return writeln!('), '''let ghost w1 = w@;
+            ''', where='before'),
+    rep(A.text('return', nth=1), 'let r__: std::io::Result<()> =', tag='T13', note='`return E;` as `let r = E; return r;` so that the proof can stand between the call and the return'),
+    ins(A.text('} Ok(())'), '''proof {
+                if r__ is Ok {
+                    // the declaration is whatever the literal says: its first piece has to begin with `export const ReviverFunc`
+                    wfmt_end_file_0_p0_chars();
+                    reveal_strlit("export const ReviverFunc");
+                    let p0 = wfmt_end_file_0_p0();
+                    let n = reviver_decl().len() as int;
+                    assert(p0.len() >= n);
+                    let rest = p0.subrange(n, p0.len() as int);
+                    assert(p0 =~= reviver_decl() + rest);
+                    let a = w1.subrange(w0.len() as int, w1.len() as int);
+                    assert(w1 =~= w0 + a);
+                    let b = w@.subrange(w1.len() + n, w@.len() as int);
+                    assert(wit2(a, b));
+                    assert(w@ =~= w0 + a + reviver_decl() + b);
+                }
+            }
+            return r__;
+        ''', where='before'),
+]
+
+PAYLOAD_WRAP = ('''impl TypeScript {
+/// T11: the arm of write_enum_variants' closure that writes the payload of a newtype (tuple) variant of an algebraic enum
+fn tuple_payload_block(&mut self, w: &mut WriteSink, e: &RustEnum, tag_key: &String, content_key: &String, ty: &RustType, shared: &RustEnumVariantShared) -> (r: io::Result<()>)
+    requires obeys_key_model::<String>(), dom(*ty),
+    ensures /*C04: the payload of a newtype variant is optional exactly when its type is Option<T>; the marker never changes the type text; Option<Option<T>> keeps `| null`*/
+        r is Ok ==> exists|pre: Seq<char>, t: Seq<char>, post: Seq<char>| #[trigger] wit3(pre, t, post)
+            && tx_ok(old(self).cfg(), e.s.generic_types@, *ty, t)
+            && final(w)@ == old(w)@ + pre + ts_payload(content_key@, t, *ty) + post,
+        final(self).cfg() == old(self).cfg(),
+{
+    let ghost w0 = w@;
+    let ghost c0 = self.cfg();
+    let r__: io::Result<()> =
+''', ''';
+    proof {
+        if r__ is Ok {
+            let t = choose|t: Seq<char>| #[trigger] wit(t) && tx_ok(c0, e.s.generic_types@, *ty, t) && w@ == w0 + wfmt_tuple_payload_block_0_p0() + tag_key@ + wfmt_tuple_payload_block_0_p1() + debug_str(shared.id.renamed@)
+                + wfmt_tuple_payload_block_0_p2() + content_key@ + wfmt_tuple_payload_block_0_p3() + mark(is_opt(*ty), "?"@) + wfmt_tuple_payload_block_0_p4() + t + wfmt_tuple_payload_block_0_p5()
+                + mark(is_double_opt(*ty), " | null"@) + wfmt_tuple_payload_block_0_p6();
+            wfmt_tuple_payload_block_0_p3_chars(); wfmt_tuple_payload_block_0_p5_chars();
+            let pre = wfmt_tuple_payload_block_0_p0() + tag_key@ + wfmt_tuple_payload_block_0_p1() + debug_str(shared.id.renamed@) + wfmt_tuple_payload_block_0_p2();
+            let post = wfmt_tuple_payload_block_0_p6();
+            assert(wit3(pre, t, post));
+            assert(w@ =~= w0 + pre + ts_payload(content_key@, t, *ty) + post);
+        }
+    }
+    r__
+}
+}
+''')
+
 UNIT = Unit(
-    name='opt_ts', props=['C04', 'C07'], pre_verus=O.PRE_VERUS, spec_files=['std_slices.rs', 'seqjoin.rs', 'typexpr.rs', 'txt.rs', 'optmark.rs'], prelude=PRELUDE,
+    name='opt_ts', props=['C04', 'C12', 'C07'], pre_verus=O.PRE_VERUS, spec_files=['std_slices.rs', 'seqjoin.rs', 'typexpr.rs', 'txt.rs', 'optmark.rs'], prelude=PRELUDE,
     items=O.base_items('TypeScript', SRC) + [
         Item('write_field', SRC, ['impl TypeScript {', 'fn write_field'], FIELD, wrap=('impl TypeScript {\n', '\n}\n'),
              auto=('fmt', 'strlit', 'then_some', 'map_err_q')),
+        Item('end_file', SRC, ['impl Language for TypeScript {', 'fn end_file'], ENDFILE, wrap=('impl TypeScript {\n', '\n}\n'), auto=('fmt', 'strlit')),
+        Item('tuple_payload_block', SRC, ['impl TypeScript {', 'fn write_enum_variants'], [], wrap=PAYLOAD_WRAP,
+             block=(A.text('RustEnumVariant::Tuple { ty, shared } =>'), A.text('RustEnumVariant::AnonymousStruct { fields, shared } =>')),
+             auto=('fmt', 'strlit', 'then_some', 'map_err_q', ('tok', 'r#type', 'rtype__', 'T12'))),
     ],
-    functions=['TypeScript::write_field', 'RustType::is_optional', 'RustType::is_double_optional'],
-    trusted=O.TRUSTED + ['outlined: reviver bookkeeping (touches only types_for_custom_json_translation); readonly lookup; typescript_property_aware_rename is a pure function of the name'],
-    undecided=O.UNDECIDED,
+    functions=['TypeScript::write_field', 'TypeScript::tuple_payload_block', 'TypeScript::end_file', 'RustType::is_optional', 'RustType::is_double_optional'],
+    trusted=O.TRUSTED + ['outlined: reviver bookkeeping (touches only types_for_custom_json_translation); readonly lookup; typescript_property_aware_rename is a pure function of the name',
+                         'T11: the arm of write_enum_variants that writes a newtype-variant payload is lifted into a function of (self, w, e, tag_key, content_key, ty, shared); T12: the raw identifier '
+                         '`r#type` is renamed (Verus 0.2026.09.13 aborts on raw identifiers); stubs RustEnum / RustEnumShared / RustEnumVariantShared carry only the fields the block reads',
+                         'end_file: BTreeMap::is_empty as "no key recorded"; the filter_map / map / join chains that collect the snippets are outlined (some text); T13: `return E;` as `let r = E; return r;`'],
+    undecided=[u for u in O.UNDECIDED if 'newtype-variant' not in u] + ['members written on other paths (type aliases) and the text around a member; newtype-variant payloads are decided for TypeScript only (the other '
+                                  'back ends put the marker of Option<T> into the type text: C05)',
+                                  'C12: which snippets the footer contains (custom_translations table, iterator chains); that every use of ReviverFunc / ReplacerFunc lies in the footer itself'],
 )
 UNIT.crate_attrs = '#![feature(allocator_api)]'
 UNIT.forbid = F.FORBID
 UNIT.allowed_calls = O.ALLOWED
 
 
-def native(workdir):
+def _search():
+    # the unit serves two properties: a failing input is looked for with the stand-in of the property being checked
+    import os
+    if os.environ.get('VERIF_PID') == 'C12':
+        import helpersearch
+        return helpersearch
     import optsearch
-    return optsearch.native(workdir)
+    return optsearch
+
+
+def native(workdir):
+    return _search().native(workdir)
 
 
 def replay_args(inp):
+    if 'trigger' in inp:
+        import helpersearch
+        return helpersearch.replay_args(inp)
     import optsearch
     return optsearch.replay_args(inp)
